@@ -18,6 +18,14 @@ def run(tier):
                       workers=4, timeout=3000)
     rep.add_tlc(r)
     rep.add_replay("createlarge", replay("createlarge", r.replay, "c02_large"))
+    for tag, cfg in [("c02_joint", "MCCreateLarge_joint.cfg"), ("c02_wide", "MCCreateLarge_wide.cfg")]:
+        r2 = tlc_must_pass(tag, "MCCreateLarge", cfg, workers=2, timeout=900)
+        rep.add_tlc(r2)
+        rep.add_replay("createlarge", replay("createlarge", r2.replay, tag))
+    rep.rule += (" Two-population cohorts whose JOINT denominator leaves the f64 range (2 x 270 and 514 + 20 individuals) and a "
+                 "cohort whose output has 257 x 257 cells are checked in factored form: TLC checks that every one-axis row is a "
+                 "distribution and (on small scenarios) that the contribution is the outer product of the rows; the replay sums "
+                 "the outer products.")
     rep.rule += (" Cohorts: CreateLarge.tla applies class-level records (called individuals, ALT alleles per population) of "
                  "populations with up to 600 individuals (sizes around 1030 chromosomes, where binomial coefficients leave the "
                  "f64 range) and emits the exact projected spectrum; each scenario is rendered as a VCF and run through "
